@@ -292,6 +292,63 @@ fn oracle_cases(thorough: bool, rng: &mut Rng, out: &mut Vec<Case>) {
         c.tags.push("oracle=large_region".into());
         out.push(c);
     }
+    // 1..8 regions in one ipc-level message, any order: repeats of one region, clones of clones (0..3 deep), empty
+    // regions between non-empty ones; the sender's copies and the channel's sending end are gone before the read
+    for t in 0..(if thorough { 60 } else { 12 }) {
+        let mut c = Case::new(format!("shm-many-ipc-{}", t));
+        let lens = [0usize, 1, 4095, 4097, 8193, 3, 0, 70_000];
+        let pool: Vec<(Vec<u8>, IpcSharedMemory)> = (0..5)
+            .map(|_| {
+                let w = content(rng.below(200), lens[rng.below(lens.len() as u64) as usize]);
+                let r = if w.is_empty() && rng.below(2) == 0 { IpcSharedMemory::from_byte(3, 0) } else { IpcSharedMemory::from_bytes(&w) };
+                (w, r)
+            })
+            .collect();
+        let n = rng.range(1, 8) as usize;
+        let mut wants = Vec::new();
+        let mut msg = Vec::new();
+        for _ in 0..n {
+            let (w, r) = &pool[rng.below(pool.len() as u64) as usize];
+            let mut cl = r.clone();
+            for _ in 0..rng.below(4) {
+                cl = cl.clone();
+            }
+            wants.push(w.clone());
+            msg.push(cl);
+        }
+        let (tx, rx) = ipc::channel::<(u32, Vec<IpcSharedMemory>)>().unwrap();
+        match tx.send((n as u32, msg)) {
+            Ok(()) => {},
+            Err(e) => c.fail(format!("send of {} regions failed: {:?}", n, e)),
+        }
+        drop(tx);
+        drop(pool);
+        match rx.recv() {
+            Ok((k, got)) => {
+                if k as usize != n || got.len() != n {
+                    c.fail(format!("sent {} regions, {} arrived", n, got.len()));
+                }
+                for (j, (g, w)) in got.iter().zip(wants.iter()).enumerate() {
+                    if &**g != &w[..] {
+                        c.fail(format!("region {} of {} arrived with {} bytes / other contents, sent {} bytes", j, n, g.len(), w.len()));
+                    }
+                }
+                drop(rx);
+                for (j, (g, w)) in got.iter().zip(wants.iter()).enumerate() {
+                    if &*g.clone() != &w[..] {
+                        c.fail(format!("region {} of {} unreadable after the channel was dropped", j, n));
+                    }
+                }
+            },
+            Err(e) => c.fail(format!("recv failed: {:?}", e)),
+        }
+        c.pair("noop".into(), "ok".into());
+        c.nontrivial = true;
+        c.key = format!("many-ipc:{}", n);
+        c.tags.push("oracle=many_regions_ipc_level".into());
+        c.tags.push(format!("ipc_regions_in_message={}", n));
+        out.push(c);
+    }
     // zero length at the ipc level
     {
         let mut c = Case::new("shm-zero-ipc".into());
